@@ -3,6 +3,7 @@ import Proofs.ExtractPerm
 import Proofs.ExtractSql
 import Proofs.ExtractReload
 import Proofs.ExtractScope
+import Proofs.ExtractFrame
 
 /-!
   C14 — Component extraction mirrors the BridgePoint class model.
@@ -57,28 +58,35 @@ theorem extract_shape_derived_iff_requested (d : ClassDiagram) (drv : Bool) (a :
     (sattr d drv a).isSome = (drv && (attrTy d a).isSome) := by
   rw [sattr_isSome]; unfold Attr.kept; rw [h]; cases drv <;> rfl
 
-/-- type mapping: core types 1..5 -> the upper-cased name -/
-theorem type_of_core (dts : List DataType) (t : DataType) (n f : Nat) (h : findDt dts t.id = some t)
-    (hk : t.kind = .core n) : dtTypeFuel dts (f + 1) t.id = if 1 ≤ n ∧ n ≤ 5 then some (upper t.name) else none := by
-  simp only [dtTypeFuel, h, hk]
+/-- type mapping, on `dtTypeName` itself (= `_get_data_type_name`): core types 1..5 -> the upper-cased name (an EMPTY name
+    counts as unsupported: `elif not ty:`) -/
+theorem type_of_core (dts : List DataType) (t : DataType) (n : Nat) (h : findDt dts t.id = some t)
+    (hk : t.kind = .core n) : dtTypeName dts t.id = if 1 ≤ n ∧ n ≤ 5 ∧ t.name ≠ "" then some (upper t.name) else none :=
+  dtTypeName_core h hk
 
 /-- enumerations -> INTEGER -/
-theorem type_of_enum (dts : List DataType) (t : DataType) (es : List String) (f : Nat)
-    (h : findDt dts t.id = some t) (hk : t.kind = .enum es) : dtTypeFuel dts (f + 1) t.id = some "INTEGER" := by
-  simp only [dtTypeFuel, h, hk]
+theorem type_of_enum (dts : List DataType) (t : DataType) (es : List String)
+    (h : findDt dts t.id = some t) (hk : t.kind = .enum es) : dtTypeName dts t.id = some "INTEGER" :=
+  dtTypeName_enum h hk
 
-/-- user types -> whatever their base type maps to (one step of the recursion over R18) -/
-theorem type_of_user (dts : List DataType) (t : DataType) (b f : Nat) (h : findDt dts t.id = some t)
-    (hk : t.kind = .user b) : dtTypeFuel dts (f + 1) t.id = dtTypeFuel dts f b := by
-  simp only [dtTypeFuel, h, hk]
+/-- user types -> whatever their base type maps to, for acyclic R18 chains (`DtChainOk`; on a cyclic chain Python
+    recurses without end) -/
+theorem type_of_user (dts : List DataType) (chain : DtChainOk dts) (t : DataType) (b : Nat)
+    (h : findDt dts t.id = some t) (hk : t.kind = .user b) : dtTypeName dts t.id = dtTypeName dts b :=
+  dtTypeName_user chain h hk
 
 /-- anything else (structured types, instance references, a dangling DT_ID) is unsupported -/
-theorem type_of_other (dts : List DataType) (id f : Nat) :
-    (findDt dts id = none → dtTypeFuel dts (f + 1) id = none) ∧
-    (∀ t, findDt dts id = some t → t.kind = .other → dtTypeFuel dts (f + 1) id = none) := by
-  constructor
-  · intro h; simp only [dtTypeFuel, h]
-  · intro t h hk; simp only [dtTypeFuel, h, hk]
+theorem type_of_other (dts : List DataType) (id : Nat) :
+    (findDt dts id = none → dtTypeName dts id = none) ∧
+    (∀ t, findDt dts id = some t → t.kind = .other → dtTypeName dts id = none) :=
+  dtTypeName_other id
+
+/-- `_get_data_type_name` against a relational specification (`MapsTo`: core 1..5 -> NAME, enumeration -> INTEGER,
+    user type -> the type of its base): the model decides exactly that relation and its fuel is never exhausted on
+    acyclic chains -/
+theorem type_mapping_rel {dts : List DataType} (chain : DtChainOk dts) (i : Nat) (s : String) :
+    dtTypeName dts i = some s ↔ MapsTo dts i s :=
+  dtTypeName_iff chain i s
 
 /-- a referential attribute has the type of the base attribute it refers to over R113 -/
 theorem type_of_referential (d : ClassDiagram) (a ba : Attr) (c b : Nat) (k : Class) (hk : a.kind = .ref c b)
@@ -216,6 +224,13 @@ theorem edit_frame_rename (kl old new : String) (s : Schema) :
           a.tgt.kind, a.tgt.many, a.tgt.cond, a.tgt.phrase)))) :=
   frame_rename kl old new s
 
+/-- frame: a rename keeps every identifier's number and size, and the class named `kl` becomes its renamed self -/
+theorem edit_frame_rename_idents (kl old new : String) (s : Schema) :
+    (schemaEdit (.renameAttr kl old new) s).classes.map (fun c => c.idents.map (fun i => (i.num, i.names.length))) =
+      s.classes.map (fun c => c.idents.map (fun i => (i.num, i.names.length))) ∧
+    (∀ c ∈ s.classes, c.kl = kl → c.rename old new ∈ (schemaEdit (.renameAttr kl old new) s).classes) :=
+  frame_rename_idents kl old new s
+
 /-- frame: a retype keeps the associations, the classes' names, attribute names / order and identifiers;
     attributes outside the listed sites keep their type -/
 theorem edit_frame_retype (sites : List (String × String)) (ty : String) (s : Schema) :
@@ -235,6 +250,38 @@ theorem edit_frame_reorder (kl : String) (names : List String) (s : Schema) :
     (∀ c ∈ s.classes, c.kl ≠ kl → c ∈ (schemaEdit (.reorder kl names) s).classes) ∧
     (∀ c ∈ (schemaEdit (.reorder kl names) s).classes, ∀ a ∈ c.attrs, ∃ c' ∈ s.classes, c'.kl = c.kl ∧ a ∈ c'.attrs) :=
   frame_reorder kl names s
+
+/-- frame: a reorder by a permutation of the attribute names loses nothing and adds nothing -/
+theorem edit_frame_reorder_perm (names : List String) (c : SClass) (nd : (c.attrs.map (·.name)).Nodup)
+    (hp : names.Perm (c.attrs.map (·.name))) : (c.reorder names).attrs.Perm c.attrs :=
+  frame_reorder_perm names c nd hp
+
+/-- WHICH field an end edit changes, everything else of the association being literally kept: R_FORM -> source end,
+    R_PART -> target end of the one association; R_AONE -> source end of the SECOND, R_AOTH -> of the FIRST association -/
+theorem edit_end_table (a b : SAssoc) (v : Bool) :
+    itemsSetMult .form v [a] = [{ a with src := { a.src with many := v } }] ∧
+    itemsSetMult .part v [a] = [{ a with tgt := { a.tgt with many := v } }] ∧
+    itemsSetMult .one v [a, b] = [a, { b with src := { b.src with many := v } }] ∧
+    itemsSetMult .oth v [a, b] = [{ a with src := { a.src with many := v } }, b] ∧
+    itemsSetCond .form v [a] = [{ a with src := { a.src with cond := v } }] ∧
+    itemsSetCond .part v [a] = [{ a with tgt := { a.tgt with cond := v } }] ∧
+    itemsSetCond .one v [a, b] = [a, { b with src := { b.src with cond := v } }] ∧
+    itemsSetCond .oth v [a, b] = [{ a with src := { a.src with cond := v } }, b] :=
+  end_edit_table a b v
+
+/-- … and for phrases (only reflexive relationships show them; crosswise) -/
+theorem edit_phrase_table (a b : SAssoc) (v : String) :
+    (a.src.kind = a.tgt.kind →
+      itemsSetPhrase .form v [a] = [{ a with tgt := { a.tgt with phrase := v } }] ∧
+      itemsSetPhrase .part v [a] = [{ a with src := { a.src with phrase := v } }]) ∧
+    (a.src.kind ≠ a.tgt.kind → ∀ sel, itemsSetPhrase sel v [a] = [a]) ∧
+    (a.tgt.kind = b.tgt.kind →
+      itemsSetPhrase .one v [a, b] =
+        [{ a with src := { a.src with phrase := v } }, { b with tgt := { b.tgt with phrase := v } }] ∧
+      itemsSetPhrase .oth v [a, b] =
+        [{ a with tgt := { a.tgt with phrase := v } }, { b with src := { b.src with phrase := v } }]) ∧
+    (a.tgt.kind ≠ b.tgt.kind → ∀ sel, itemsSetPhrase sel v [a, b] = [a, b]) :=
+  phrase_edit_table a b v
 
 /-- frame: setting a multiplicity keeps the classes, the other relationships' associations, and in the
     edited relationship every field except `many` -/
@@ -352,9 +399,44 @@ theorem built_component_closed {d : ClassDiagram} {comp : Option Nat} {drv : Boo
     ∀ g ∈ s.groups, ∀ a ∈ g.items,
       (∃ c ∈ s.classes, upper c.kl = upper a.src.kind) ∧
       (∃ c ∈ s.classes, upper c.kl = upper a.tgt.kind) ∧
+      a.src.keys.length = a.tgt.keys.length ∧
       (∃ c ∈ s.classes, upper c.kl = upper a.tgt.kind ∧
         ∀ k ∈ a.tgt.keys, upper k ∈ c.attrs.map (fun x => upper x.name)) :=
   mkComponent_some h
+
+/-- the model's functions are total where the Python code dereferences None (a relationship naming a class or an
+    attribute row that does not exist: AttributeError).  `resolvedRel` excludes exactly that, and then nothing is
+    dropped: `groupOf` is defined, has 1 / 2 / one-per-subtype / 0 associations and every key list has one entry per
+    O_REF.  `buildOutcome` reports AttributeError for an unresolved relationship in scope; the shape and edit theorems
+    describe the Python code on resolved diagrams (`resolvedIn d comp = true`). -/
+theorem resolved_nothing_dropped {d : ClassDiagram} {r : Rel} (h : resolvedRel d r = true) :
+    ∃ g, groupOf d r = some g ∧
+      g.items.length = (match r.kind with
+        | .simple _ _ _ => 1 | .linked _ _ _ _ _ => 2 | .subsup _ subs => subs.length | .derived => 0) ∧
+      ∀ a ∈ g.items, a.src.keys.length = a.tgt.keys.length :=
+  resolved_group h
+
+/-- the three endings of `mk_component`: AttributeError iff class names are distinct and some relationship in scope
+    is unresolved; otherwise MetaModelException iff some definition is refused; otherwise the extracted schema -/
+theorem build_outcome_cases (d : ClassDiagram) (comp : Option Nat) (drv : Bool) :
+    (∀ s, buildOutcome d comp drv = .ok s → s = extract d comp drv ∧ resolvedIn d comp = true ∧ s.definable = true) ∧
+    (buildOutcome d comp drv = .attributeError → resolvedIn d comp = false) ∧
+    (resolvedIn d comp = true → (extract d comp drv).definable = true →
+      buildOutcome d comp drv = .ok (extract d comp drv)) := by
+  have hdn : (extract d comp drv).definable = true →
+      ((extract d comp drv).classes.map (fun c => upper c.kl)).Nodup := by
+    intro hd
+    unfold Schema.definable at hd
+    simp only [Bool.and_eq_true, decide_eq_true_eq] at hd
+    exact hd.1
+  by_cases hn : ((extract d comp drv).classes.map (fun c => upper c.kl)).Nodup
+  · cases hr : resolvedIn d comp <;> cases hd : (extract d comp drv).definable <;>
+      simp [buildOutcome, mkComponent, hn, hr, hd]
+  · have hdf : (extract d comp drv).definable = false := by
+      cases hd : (extract d comp drv).definable
+      · rfl
+      · exact absurd (hdn hd) hn
+    cases hr : resolvedIn d comp <;> simp [buildOutcome, mkComponent, hn, hr, hdf]
 
 /-- derived attributes only on request: with the flag off NO declared attribute stems from a derived one, and the
     result is the flag-on result of the non-derived attributes (nothing else moves); with the flag on the declared
@@ -527,14 +609,47 @@ example : TreeOk nested :=
 example : Reaches nested 6 (.pkg 9) ∧ Reaches nested 6 (.comp 8) ∧ containedIn nested 6 (.pkg 9) = true ∧
     containedIn nested 8 (.pkg 5) = false ∧ containedIn nested 6 (.pkg 7) = false :=
   ⟨.pkg (k := ⟨false, 9, "Deep", .comp 8⟩) (by decide)
-      (.comp (k := ⟨true, 8, "Inner", .pkg 5⟩) (by decide) (.pkg (k := ⟨false, 5, "Pkg", .comp 6⟩) (by decide) .here)),
-   .comp (k := ⟨true, 8, "Inner", .pkg 5⟩) (by decide) (.pkg (k := ⟨false, 5, "Pkg", .comp 6⟩) (by decide) .here),
+      (.comp (k := ⟨true, 8, "Inner", .pkg 5⟩) (by decide) (.pkg (k := ⟨false, 5, "Pkg", .comp 6⟩) (by decide) (.here (k := ⟨true, 6, "Comp", .none⟩) (by decide)))),
+   .comp (k := ⟨true, 8, "Inner", .pkg 5⟩) (by decide) (.pkg (k := ⟨false, 5, "Pkg", .comp 6⟩) (by decide) (.here (k := ⟨true, 6, "Comp", .none⟩) (by decide))),
    by decide, by decide, by decide⟩
 
 /-- Owner moved out of the component while R1 stays inside: the build raises; moved together with R1: it builds -/
 example : mkComponent (applyEdit (.moveClass 1 (.pkg 7)) d0) (some 6) false = none ∧
     (mkComponent (applyEdits [.moveRel 41 .none, .moveClass 1 (.pkg 7)] d0) (some 6) false).isSome = true ∧
     (mkComponent d0 (some 6) true).isSome = true := by decide
+
+/-- the applicability conditions of retype and reorder are satisfiable too -/
+example : EditOk d0 (.retypeAttr 1 11 104) := by
+  intro kc xa hc ha _
+  have h : findClass d0 1 = some ⟨1, "OWN", [⟨11, "id", .base 102⟩, ⟨12, "name", .base 104⟩, ⟨13, "age", .derived 102⟩], [⟨0, [11]⟩], .pkg 5⟩ := by decide
+  rw [h] at hc; cases hc
+  have h2 : (⟨1, "OWN", [⟨11, "id", .base 102⟩, ⟨12, "name", .base 104⟩, ⟨13, "age", .derived 102⟩], [⟨0, [11]⟩], .pkg 5⟩ : Class).findAttr 11 =
+      some ⟨11, "id", .base 102⟩ := by decide
+  rw [h2] at ha; cases ha
+  exact ⟨by decide, by decide⟩
+
+example : EditOk d0 (.reorderAttrs 2 [23, 21, 22]) := by
+  intro kc hc
+  have h : findClass d0 2 = some ⟨2, "DOG", [⟨21, "tag", .base 51⟩, ⟨22, "color", .base 50⟩, ⟨23, "owner_id", .ref 1 11⟩], [⟨0, [21]⟩, ⟨1, []⟩], .pkg 5⟩ := by decide
+  rw [h] at hc; cases hc
+  decide
+
+/-- a subtype relationship: Sup with the subtypes SB1 and SB2; one association per subtype, subtype side conditional -/
+def dSub : ClassDiagram :=
+  { containers := [], dts := [⟨102, "integer", .core 2, .none⟩],
+    classes := [⟨1, "SUP", [⟨11, "id", .base 102⟩], [⟨0, [11]⟩], .none⟩,
+                ⟨2, "SB1", [⟨21, "id", .ref 1 11⟩], [⟨0, [21]⟩], .none⟩,
+                ⟨3, "SB2", [⟨31, "sup_id", .ref 1 11⟩, ⟨32, "x", .base 102⟩], [⟨0, [31]⟩], .none⟩],
+    rels := [⟨41, 7, .subsup 1 [(2, [⟨21, 11⟩]), (3, [⟨31, 11⟩])], .none⟩] }
+
+example : (extract dSub none false).groups =
+    [⟨7, [⟨⟨"SB1", ["id"], false, true, ""⟩, ⟨"SUP", ["id"], false, false, ""⟩⟩,
+          ⟨⟨"SB2", ["sup_id"], false, true, ""⟩, ⟨"SUP", ["id"], false, false, ""⟩⟩]⟩] ∧
+    resolvedIn dSub none = true ∧ (mkComponent dSub none false).isSome = true := by decide
+
+/-- a relationship naming a class that does not exist: the model reports the AttributeError of the Python code -/
+example : (match buildOutcome { dSub with rels := [⟨41, 7, .subsup 9 [(2, [⟨21, 11⟩])], .none⟩] } none false with
+    | .attributeError => true | _ => false) = true := by decide
 
 /-- the rows of d0 in reverse order -/
 example : RowWF d0 ∧ RowPerm d0 ⟨d0.containers.reverse, d0.dts.reverse, d0.classes.reverse, d0.rels.reverse⟩ :=
